@@ -138,7 +138,10 @@ Inductive case :=
 | KSpecEnc (g : gschema) (d : datum) (ch : choice) (bs : bytes)             (* the harness's own encoder against spec_encode *)
 | KLayout (t : gtype) (size align : Z) (offsets : list Z).                  (* reflect's Size / Align / field offsets *)
 
-Definition fuel_for (bs : bytes) : nat := (4 * length bs + 64)%nat.
+(* fuel for evaluating the model on a case: linear in the input (what the theorems need)
+   plus a constant that covers collections of zero-width items (nulls, empty records),
+   whose loops are driven by the declared count, not by the bytes *)
+Definition fuel_for (bs : bytes) : nat := (4 * length bs + 64 + Z.to_nat 8192)%nat.
 
 Definition top_type (t : gtype) : gtype := match t with TPtr e => e | _ => t end.
 Definition is_struct (t : gtype) : bool := match underlying t with TStruct _ _ _ => true | _ => false end.
